@@ -6,22 +6,33 @@ from vlib import hexs, unhex
 META = dict(
     property_id='C06',
     design_ref='DESIGN.md section 4, C06',
-    technique='Coq proof (codec round trip / totality by induction, per-request and whole-history invariants of an executable model of '
-              'session_interface + sid/cookies/dual back-ends + abstract storage + cookie jars + virtual clock) + extracted-model '
-              'correspondence on the real session_interface over a cookie-jar adapter with interposed time() + token-level property oracle',
-    level_text=('Theorems in coq/C06/Props.v over an executable model of session_interface::load/save (new-session rule, fixed/renew/browser '
-                'policy with the IEEE-double 10 % window, cookie_age, session_age, update_exposed), the packed entry codec, session_sid, '
-                'session_cookies (symbolic MAC), session_dual, an abstract session_storage, per-browser cookie jars and a virtual clock; '
-                'see docs/C06.md for the list. The model is tied to the code by running the extracted model and the real '
-                'cppcms::session_interface (real back-ends, real memory / file / network storages behind a logging session_storage decorator, '
-                'cookie adapter = jar, interposed time()) on the same multi-browser histories with attacker cookies, and an independent '
-                'Python oracle evaluates the property text on the implementation output alone.'),
+    technique='Coq proof (codec round trip / totality by induction; per-request theorems, frame and history invariants, end-to-end refinement '
+              'theorems over all histories of an executable model of session_interface + sid/cookies/dual back-ends + abstract storage + cookie '
+              'jars + virtual clock) + extracted-model correspondence on the real session_interface (cookie-jar adapter AND real HTTP front end) '
+              'with interposed time() + independent token-level property oracle',
+    level_text=('Theorems in coq/C06/Props.v (31, all closed under the global context) over an executable model of session_interface::load/save '
+                '(new-session rule, fixed/renew/browser policy with the IEEE-double 10 % window, cookie_age, session_age, update_exposed), the '
+                'packed entry codec, session_sid, session_cookies (symbolic MAC), session_dual, an abstract session_storage, per-browser cookie '
+                'jars and a virtual clock: codec round trip and totality; in every history every storage access uses a 32-hex id; clear kills '
+                'the id, reset removes the old id and issues the next output of the random source, moving back to the cookie leaves no server '
+                'record; a live record / client cookie is read back exactly, an expired / unknown / malformed / forged one reads empty; for '
+                'every history of other browsers, clock advances and attacker strings nobody else reads or changes a session; end to end '
+                '(server and client back-ends): the next request of a browser reads exactly the state the previous one left (values, exposed '
+                'flags, age, expiration mode, on-server flag) while now <= the deadline of the mode, the empty session afterwards - also in '
+                'closed form from the empty world over all fair histories (reachable-world invariant). exposed cookies: only exposed keys keep '
+                'a cookie, every new/changed/forced exposed entry is sent; the unconditional in-step statement is refuted (known finding). '
+                'The character test of valid_sid is regenerated from src/session_sid.cpp and proved equal to the model (256-point sweep). The '
+                'model is tied to the code by running the extracted model and the real cppcms::session_interface - over a cookie-jar adapter '
+                'with the real memory / file / network storages behind a logging decorator, and as session_interface(http::context&) behind a '
+                'real in-process HTTP service - on the same multi-browser histories with attacker cookies; an independent Python oracle '
+                'evaluates the property text on the implementation output alone. Two genuine defects found (known findings).'),
     level_note=('Trusted: Coq kernel + vm_compute; ExtrOcamlBasic extraction; the hand model (tied by correspondence; the only '
                 'source-generated leaf is the sid character test); symbolic MAC (an attacker string never carries a valid MAC unless it is a '
                 'verbatim replay); the browser model (a cookie is sent until its max-age elapsed, session cookies for ever); storages are '
-                'observed through the session_storage interface only. Not covered: CSRF token generation, http::context based '
-                'session_interface (cookies parsed from a request), the empty key, negative ages, keys _t/_h/_s set by the application, '
-                'concurrency between requests, gc jobs.'),
+                'observed through the session_storage interface only; hypotheses on the random source (pairwise distinct, the drawn id well '
+                'formed) are explicit premises. Not covered: CSRF token generation, the empty key, negative ages, keys _t/_h/_s set by the '
+                'application, clear() followed by new values in one script (finding settings-lost-by-clear) in the theorems, end-to-end '
+                'theorem across a client<->server switch of the dual back-end, concurrency between requests, gc jobs.'),
 )
 
 GEN = {}
@@ -288,6 +299,32 @@ def gen_cases(ctx):
     for kl in (1022, 1023, 1024):
         cases.append('hist loc=S stor=M exp=R to=100 lim=64 | R 0 s:%s:31 | R 0 | R 0 s:61:32 | R 0' % ('6b' * kl))
     return cases
+
+
+def http_safe(case):
+    """can this history be sent through the HTTP front end (cookie-safe names and values, nothing that raises)?"""
+    safe = {hexs(k) for k in SAFE_KEYS}
+    cfg, steps = parse_case(case)
+    for st in steps:
+        if not st:
+            continue
+        if st[0] == 'P':
+            return False
+        if st[0] == 'A':
+            if st[2] == 'raw' and not re.fullmatch(rb'[A-Za-z0-9]+', unhex(st[3])):
+                return False
+            if st[2] == 'hist' and st[4] == 'path':
+                return False
+        if st[0] == 'X' and (st[2] not in safe or not re.fullmatch(rb'[A-Za-z0-9]+', unhex(st[3]))):
+            return False
+        if st[0] == 'R':
+            for o in st[2:]:
+                a = o.split(':')
+                if a[0] in ('s', 'e', 'x', 'h') and a[1] not in safe:
+                    return False
+                if a[0] == 'o' and a[1] == '1' and cfg['loc'] == 'C':
+                    return False
+    return True
 
 
 def gen_http_cases(ctx):
@@ -682,7 +719,8 @@ def run(ctx):
         'Coq 8.16.1 kernel, vm_compute',
         'extraction: ExtrOcamlBasic, OCaml 4.13.1',
         'hand model coq/C06/Defs.v of session_interface / session_sid / session_cookies / session_dual / abstract storage / jar / clock',
-        'harness/C06_sessions.cpp (jar adapter, logging storage decorator, interposed time()), ocaml/C06_driver.ml, checks/C06.py',
+        'harness/C06_common.h, C06_sessions.cpp (jar adapter), C06_http.cpp (in-process HTTP service + client), logging storage decorator, interposed time(); ocaml/C06_driver.ml; checks/C06.py',
+        'checks/C06.py:gen_sid_leaf re-wraps the cxx2v translation of the valid_sid loop body as a bool function',
         'symbolic MAC and browser model (see docs/C06.md)']
     ctx.assumptions = ['the random source yields pairwise distinct well-formed identifiers (stated as hypotheses of the theorems that need it)',
                        'an attacker string carries a valid MAC only if it is a verbatim replay of an emitted cookie',
@@ -715,8 +753,9 @@ def run(ctx):
         hexe, err = vlib.build_harness('C06_http', ['C06_http.cpp'])
         if not hexe:
             ctx.broke('http harness build failed', err)
-        elif ctx.replay_cases is None:
-            vlib.differential(ctx, gen_http_cases(ctx), hexe, mexe, oracle, nontrivial, lambda c, o: 'http ' + classify(c, o),
+        else:
+            hcases = gen_http_cases(ctx) if ctx.replay_cases is None else [c for c in cases if http_safe(c)]
+            vlib.differential(ctx, hcases, hexe, mexe, oracle, nontrivial, lambda c, o: 'http ' + classify(c, o),
                               impl_env={'C06_TMP': tmp}, what='correspondence model vs implementation (http::context path)', jobs=6)
     finally:
         import shutil
